@@ -1212,6 +1212,32 @@ impl<'a> Evaluator<'a> {
                         }
                     }
                 }
+                if let Val::Char(ch) = &recv {
+                    let r = match name.as_str() {
+                        "is_uppercase" => Some(ch.is_uppercase()),
+                        "is_lowercase" => Some(ch.is_lowercase()),
+                        "is_ascii_uppercase" => Some(ch.is_ascii_uppercase()),
+                        "is_ascii_lowercase" => Some(ch.is_ascii_lowercase()),
+                        "is_ascii_digit" => Some(ch.is_ascii_digit()),
+                        "is_numeric" => Some(ch.is_numeric()),
+                        "is_alphabetic" => Some(ch.is_alphabetic()),
+                        "is_alphanumeric" => Some(ch.is_alphanumeric()),
+                        "is_ascii_alphanumeric" => Some(ch.is_ascii_alphanumeric()),
+                        "is_ascii_alphabetic" => Some(ch.is_ascii_alphabetic()),
+                        "is_whitespace" => Some(ch.is_whitespace()),
+                        "is_ascii_punctuation" => Some(ch.is_ascii_punctuation()),
+                        _ => None,
+                    };
+                    if let Some(b) = r {
+                        return Ok(Val::Bool(b));
+                    }
+                    match name.as_str() {
+                        "to_ascii_uppercase" => return Ok(Val::Char(ch.to_ascii_uppercase())),
+                        "to_ascii_lowercase" => return Ok(Val::Char(ch.to_ascii_lowercase())),
+                        "to_string" => return Ok(Val::Str(ch.to_string())),
+                        _ => {}
+                    }
+                }
                 if let Val::Str(st) = &recv {
                     match name.as_str() {
                         "starts_with" | "ends_with" | "contains" => {
